@@ -72,7 +72,7 @@ def deployment(dep):
         d.use_directory("orchestrator", "addr_orchestrator")
         world.add(d.discovery_computation, hooks=())
         agent = FakeAgent(a, adef, [Hosted(c, fp) for c, fp in ad["comps"].items()])
-        rep = UCSReplication(agent, d, k_target=dep["k"])
+        rep = UCSReplication(agent, d)  # as build_replication_computation does: the level comes with replicate(k)
         rep.replication_done = DoneHook(a)
         world.add(rep, hooks=())
         reps[a] = rep
